@@ -54,7 +54,7 @@ CLAIMS = {
         ref="§7 C12", note=TB + " File::open/metadata and the RustCrypto digests are outside the model; hashlib is the reference.",
         technique="Coq proof (specification lemmas for lookup/verification) + fault-enumerating differential correspondence on real files"),
     "C13": dict(
-        text="PARTIAL (third-party hash code). Coq theorems about WHICH bytes are hashed: for every read schedule the pre-image is the concatenation of the data read before end of file, independent of how reads are split or interrupted; a hard error before EOF is returned and nothing is hashed; the patch pre-image is the newline-terminated lines not containing '$NetBSD', a final unterminated line counting as terminated; names parse case-insensitively (incl. the U+212A corner) and print canonically. That the six RustCrypto crates compute the standard functions is NOT proved: each run compares hash_str/hash_file/hash_patch with Python hashlib on lengths around every block boundary, multi-KiB inputs and scripted readers (1-byte reads, random short reads, cuts inside '$NetBSD' and at newlines, Interrupted/hard errors at every position).",
+        text="PARTIAL (third-party hash code). Coq theorems about WHICH bytes are hashed: for every read schedule the pre-image is the concatenation of the data read before end of file, independent of how reads are split or interrupted; a hard error before EOF is returned and nothing is hashed; the patch pre-image is the newline-terminated lines not containing '$NetBSD', a final unterminated line counting as terminated; names parse case-insensitively (incl. the U+212A corner) and print canonically. That the six RustCrypto crates compute the standard functions is NOT proved: each run compares hash_str/hash_file/hash_patch with Python hashlib on lengths around every block boundary, multi-KiB inputs and scripted readers (1-byte reads, random short reads, cuts inside '$NetBSD' and at newlines, Interrupted/hard errors at every position). hash_patch is modelled line by line as BufReader::split reads (patch_lines): C13_patch_schedule proves that for every schedule without 0-byte reads it hashes the filter of all bytes read; C13_zero_read_* state what a 0-byte read does (ends the line, not the stream).",
         ref="§7 C13", note=TB + " Reference digests: Python hashlib (OpenSSL).",
         technique="Coq proof (read-loop model) + differential testing against reference digests"),
     "C14": dict(
@@ -70,7 +70,7 @@ CLAIMS = {
         technique="Coq proof (loop = declarative block grouping, all-or-nothing) + model/implementation differential correspondence"),
     "C17": dict(
         text="PARTIAL (stack depth, memory, wall-clock are runtime effects). Every unwrap/expect/index/slice of the anchored code is a Panic branch of the model under the same guard and every data-dependent loop runs on fuel; Coq theorems show for EVERY input a value or a reported error - never Panic, never OutOfFuel - for the version tokeniser, Dewey::new, glob compile, Pattern::new, compile+match (recursive description, depth = number of '{', and the code's work-list loop, proved to refine it), best_match, Depend::new, pkg_summary parsing, all Summary call sequences and getters, PLIST entry and list parsing; the remaining models (distinfo, digest names, scanindex, metadata, pkgdb listing) are total functions with no Panic branch. Tied to the crate each run by running every operation of every other property plus mutation fuzz (truncate, duplicate, splice, 19-40 digit numbers, NUL, non-UTF-8, 64 KiB lines, deep nesting) under catch_unwind and a process watchdog: PANIC/ABORT/HANG or any difference from the model is a violation.",
-        ref="§7 C17, §8 D3/D10/D11/D12", note=TB + " The stack overflow on >= ~10^4 brace groups (D12) was repaired in /repo (e20d24a); no known finding is left for C17.",
+        ref="§7 C17, §8 D3/D10/D11/D12", note=TB + " The stack overflow on >= ~10^4 brace groups (D12) was repaired in /repo (e20d24a); known finding KF-C17-globdepth (>= ~75000 '*' abort inside the glob crate's recursive matcher) is listed in known_findings.json.",
         technique="Coq proof (totality of the models with explicit panic branches and fuel) + fuzzing differential correspondence under catch_unwind/watchdog"),
     "C19": dict(
         text="Coq theorems for ALL strings: PkgPath::new succeeds iff the path components (repeated/trailing slashes and non-leading '.' ignored) are [name,name] or ['..','..',name,name]; the short path then has components [a,b] and the full path ['..','..',a,b]; both spellings give equal values; re-parsing either accessor's output gives an equal value (uses the proved fact that '../../'+p adds two ParentDir components and that Normal components are ordinary names); Depend::new succeeds iff the argument splits at ':' into exactly two parts with valid pattern and path, exposing exactly those parts. Correspondence each run: EXHAUSTIVE over all '/'-joined sequences of <= 5 (thorough 6) segments from {'..','.','a','b',''} with/without leading '/', plus pattern x path x colon-count grids.",
